@@ -42,6 +42,8 @@ struct Scn {
     sw: Vec<Sw>,
     two_phases: bool,
     crash_between: Vec<usize>,
+    /// hosts bounced (restarted from scratch) between the two runs
+    bounce_between: Vec<usize>,
 }
 
 #[derive(Clone, Debug, PartialEq, Eq, PartialOrd, Ord)]
@@ -95,6 +97,11 @@ fn gen(seed: u64) -> Scn {
     } else {
         vec![]
     };
+    let bounce_between: Vec<usize> = if two_phases {
+        (0..sw.len()).filter(|i| sw[*i].phase == 0 && !sw[*i].is_client && !crash_between.contains(i) && r.chance(0.35)).collect()
+    } else {
+        vec![]
+    };
     Scn {
         tick_ms,
         duration_ms,
@@ -103,6 +110,7 @@ fn gen(seed: u64) -> Scn {
         sw,
         two_phases,
         crash_between,
+        bounce_between,
     }
 }
 
@@ -258,6 +266,9 @@ fn execute_inner(s: &Scn, by_step: bool) -> Exec {
             sim.crash(format!("n{i}"));
             crashed_after.push((*i, s1));
         }
+        for i in &s.bounce_between {
+            sim.bounce(format!("n{i}"));
+        }
         for i in 0..s.sw.len() {
             if s.sw[i].phase == 1 {
                 register(&mut sim, i);
@@ -341,7 +352,7 @@ fn eval_phase(s: &Scn, start: u64, alive: &[(usize, u64)], has_clients: bool, by
 fn admissible(s: &Scn, by_step: bool) -> BTreeSet<(Outcome, u64, Outcome, u64)> {
     let mut out = BTreeSet::new();
     let p0: Vec<usize> = (0..s.sw.len()).filter(|i| s.sw[*i].phase == 0).collect();
-    let p1: Vec<usize> = (0..s.sw.len()).filter(|i| s.sw[*i].phase == 1).collect();
+    let p1: Vec<usize> = (0..s.sw.len()).filter(|i| s.sw[*i].phase == 1 || s.bounce_between.contains(i)).collect();
     let has_c0 = p0.iter().any(|i| s.sw[*i].is_client);
     let has_c1 = has_c0 || p1.iter().any(|i| s.sw[*i].is_client);
     let opts0: Vec<Vec<u64>> = p0.iter().map(|i| finish_steps(s, *i, 0)).collect();
@@ -355,7 +366,7 @@ fn admissible(s: &Scn, by_step: bool) -> BTreeSet<(Outcome, u64, Outcome, u64)> 
                 // survivors of phase 1: not crashed, event strictly after s1
                 let mut alive: Vec<(usize, u64)> = choice0
                     .iter()
-                    .filter(|(i, c)| *c > s1 && !s.crash_between.contains(i) && s.sw[*i].kind != Kind::Never)
+                    .filter(|(i, c)| *c > s1 && !s.crash_between.contains(i) && !s.bounce_between.contains(i) && s.sw[*i].kind != Kind::Never)
                     .cloned()
                     .collect();
                 // a Never client from phase 0 cannot exist here (phase 1 was Ok)
@@ -453,7 +464,7 @@ fn scenario(s: Scn) -> ScenarioOut {
         // never scheduled again: finished software
         for (i, p) in ex.probes.iter().enumerate() {
             let fs = p.finish_step.get();
-            if fs > 0 && s.sw[i].kind == Kind::Ok && ex.final_step > fs {
+            if fs > 0 && s.sw[i].kind == Kind::Ok && ex.final_step > fs && !s.bounce_between.contains(&i) {
                 out.count("finished_software_observed_for_later_steps", 1);
                 if p.last_tick_step.get() > fs {
                     out.violate(
@@ -502,6 +513,12 @@ fn scenario(s: Scn) -> ScenarioOut {
     }
     if adm_run.len() > 1 {
         out.count("scenarios_with_boundary_ambiguity", 1);
+    }
+    if !s.bounce_between.is_empty() && ex_run.obs.o1 == Outcome::Ok {
+        out.count("scenarios_with_bounce_between_runs", 1);
+        if ex_run.obs.o2 == Outcome::Panic {
+            out.count("panics_surfaced_after_bounce", 1);
+        }
     }
     if s.sw.iter().all(|w| !w.is_client) {
         out.count("zero_client_scenarios", 1);
@@ -554,6 +571,6 @@ fn fin() -> Finish<'static> {
             "a finish exactly on a step boundary may be attributed to either adjacent step".into(),
         ],
         min_distinct: 100,
-        required_counters: vec!["panics_surfaced", "software_errors_surfaced", "duration_errors", "run_ok", "finished_software_observed_for_later_steps", "crashed_software_observed_for_later_steps", "zero_client_scenarios"],
+        required_counters: vec!["panics_surfaced", "software_errors_surfaced", "duration_errors", "run_ok", "finished_software_observed_for_later_steps", "crashed_software_observed_for_later_steps", "zero_client_scenarios", "panics_surfaced_after_bounce"],
     }
 }
